@@ -1163,11 +1163,11 @@ class PandasModelBase(
             if left.shape[0] > 0:
                 left[op.id_column] = op.a_name
             else:
-                left[op.id_column] = []
+                left[op.id_column] = self.pd.Series([], dtype=str)
             if right.shape[0] > 0:
                 right[op.id_column] = op.b_name
             else:
-                right[op.id_column] = []
+                right[op.id_column] = self.pd.Series([], dtype=str)
         if left.shape[0] < 1:
             return right
         if right.shape[0] < 1:
